@@ -133,7 +133,7 @@ func runProperty(ctx *Ctx, o *Options, t0 time.Time) int {
 				fr.skip = "contract-binding: function " + key + " not found in the source"
 				return
 			}
-			ex := NewExec(ctx, fn, sp.Funcs[key], P == "C14" || P == "C18")
+			ex := NewExec(ctx, fn, sp.Funcs[key], true)
 			ex.canaries = true
 			func() {
 				defer func() {
